@@ -20,6 +20,10 @@ claimed={
         'Event rounds must equal the timer model exactly (not earlier, not later, once); the survivor final timeline must be the real inputs up to the cut-off and (default, Disconnected) after it, spectators included.'),
  'C14':(M,'6 C14','word sweeps through the real encode/decode: all (reference, sequence) pairs over a small alphabet, a run-length stress family, all byte strings up to 2/3 bytes (+ reduced-alphabet 4-5 bytes) in child processes under a counting allocator',
         'Round trip compared with the reference model (the list itself); totality = no panic, no abort, peak allocation under 4x the largest legitimate expansion, for every enumerated byte string.'),
+ 'C06':(D,'6 C06','grids over catch-up settings x spectator schedules (stopped and polling pauses of every length crossing the 60-frame ring, slow ticking) x link outages x host-side deaths, k<=2 packet deviations; frame-by-frame equality with the host final timeline, pacing and ring-overrun oracles, differential run without spectators',
+        'Every frame handed to a spectator must equal the host final timeline (values and Disconnected statuses), never beyond the host confirmation; pacing and SpectatorTooFarBehind are checked against frames_behind_host(); players must simulate identically with and without spectators.'),
+ 'C08':(M,'6 C08','live injection grid: every single-aspect forgery of an authentic Input (status count, start frame, enumerated payload bytes, substitutions, truncations, wrong frame sizes), every message kind under a foreign magic, unknown source address, at every round of handshake/running/after-disconnect/after-shutdown and both positions; differential oracle against the run without injection; allocation measured by a counting allocator',
+        'A forged packet must cause no panic, no allocation above the bound, and leave the session behaving exactly as in the run without it (calls, events, final timelines, connection status). One known finding (malformed but authenticated packets count as liveness).'),
  'C12':(M,'6 C12','stateful exploration (visited set) of every fate of every handshake packet, k<=2/3 fault enumeration at three poll cadences, forged replies at every round, silence-length grids, poll-only cadence grids, undrained queues; oracles: per-address event grammar automaton, round trips matched by the simulated network, timer reference model',
         'The event stream of every explored execution must be accepted by the grammar automaton; Running must coincide, call by call, with 5 network-matched round trips per remote; interruption/resume/disconnect rounds must equal the timer model; the undrained queue must stay <= 100.'),
  'C13':(M,'6 C13','grid enumeration of all builder configurations x input programs, and every (frame, simulation index) placement of a nondeterministic step; reference model of the expected verdict',
